@@ -37,6 +37,8 @@ static rc::Gen<KV> gen_c07() {
                 c["copy_out_at"] = num((r >> 3) & 1 ? ((r >> 12) % 6) : 99);  // ... or before squeeze chunk #
                 c["inplace"] = num((r >> 16) & 0xff);  // bit i: chunk i in place (AEAD)
                 c["declared"] = num((r >> 4) & 1 ? std::get<4>(t) : ((r >> 5) & 1 ? 32 : 0));
+                c["xmode"] = num((r >> 6) & 1);        // XOF/XOFA with a declared length: 0 = *_fixed, 1 = *_custom("name", custom)
+                c["pad_at"] = num((r >> 7) & 1 ? ((r >> 24) % 6) : 99);  // XOF/XOFA: ascon_xof(a)_pad before absorb chunk #pad_at
                 return c;
             });
         });
@@ -55,6 +57,8 @@ static bool classify_c07(const KV &c, std::vector<std::string> &tags) {
     tags.push_back(std::string("iface=") + INAME[iface]);
     if (copy) tags.push_back("copy");
     if (reinit) tags.push_back("reinit-after-use");
+    if ((iface == I_XOF || iface == I_XOFA) && tonum(c, "pad_at", 99) < in.size()) tags.push_back("pad-between-absorbs");
+    if ((iface == I_XOF || iface == I_XOFA) && tonum(c, "declared")) tags.push_back(tonum(c, "xmode") ? "xof-variant=custom" : "xof-variant=fixed");
     if (inplace) tags.push_back("in-place");
     tags.push_back("in_chunks:" + num(std::min<size_t>(in.size(), 5)));
     tags.push_back("chunk-classes:" + num(cls.size()));
@@ -66,6 +70,7 @@ struct XofLike {
     int iface;
     union { ascon_hash_state_t h; ascon_hasha_state_t ha; ascon_xof_state_t x; ascon_xofa_state_t xa; ascon_prf_state_t p;
             ascon_kmac_state_t km; ascon_kmaca_state_t kma; ascon_kdf_state_t kd; ascon_kdfa_state_t kda; } *s;
+    int xmode = 0;
     explicit XofLike(int i) : iface(i) { s = (decltype(s))xalloc(sizeof(*s)); memset(s, 0xA5, sizeof(*s)); }
     ~XofLike() { xfree(s, sizeof(*s)); }
     void init(bool re, const Bytes &key, const Bytes &custom, size_t declared) {
@@ -73,8 +78,10 @@ struct XofLike {
         switch (iface) {
         case I_HASH: re ? ascon_hash_reinit(&s->h) : ascon_hash_init(&s->h); break;
         case I_HASHA: re ? ascon_hasha_reinit(&s->ha) : ascon_hasha_init(&s->ha); break;
-        case I_XOF: if (declared) { re ? ascon_xof_reinit_fixed(&s->x, declared) : ascon_xof_init_fixed(&s->x, declared); } else { re ? ascon_xof_reinit(&s->x) : ascon_xof_init(&s->x); } break;
-        case I_XOFA: if (declared) { re ? ascon_xofa_reinit_custom(&s->xa, "name", cu.p, cu.n, declared) : ascon_xofa_init_custom(&s->xa, "name", cu.p, cu.n, declared); } else { re ? ascon_xofa_reinit(&s->xa) : ascon_xofa_init(&s->xa); } break;
+        case I_XOF: if (declared && xmode) { re ? ascon_xof_reinit_custom(&s->x, "name", cu.p, cu.n, declared) : ascon_xof_init_custom(&s->x, "name", cu.p, cu.n, declared); }
+                    else if (declared) { re ? ascon_xof_reinit_fixed(&s->x, declared) : ascon_xof_init_fixed(&s->x, declared); } else { re ? ascon_xof_reinit(&s->x) : ascon_xof_init(&s->x); } break;
+        case I_XOFA: if (declared && xmode) { re ? ascon_xofa_reinit_custom(&s->xa, "name", cu.p, cu.n, declared) : ascon_xofa_init_custom(&s->xa, "name", cu.p, cu.n, declared); }
+                     else if (declared) { re ? ascon_xofa_reinit_fixed(&s->xa, declared) : ascon_xofa_init_fixed(&s->xa, declared); } else { re ? ascon_xofa_reinit(&s->xa) : ascon_xofa_init(&s->xa); } break;
         case I_PRF: if (declared) { re ? ascon_prf_fixed_reinit(&s->p, k.p, declared) : ascon_prf_fixed_init(&s->p, k.p, declared); } else { re ? ascon_prf_reinit(&s->p, k.p) : ascon_prf_init(&s->p, k.p); } break;
         case I_KMAC: re ? ascon_kmac_reinit(&s->km, k.p, k.n, cu.p, cu.n, declared) : ascon_kmac_init(&s->km, k.p, k.n, cu.p, cu.n, declared); break;
         case I_KMACA: re ? ascon_kmaca_reinit(&s->kma, k.p, k.n, cu.p, cu.n, declared) : ascon_kmaca_init(&s->kma, k.p, k.n, cu.p, cu.n, declared); break;
@@ -110,6 +117,8 @@ struct XofLike {
         }
         return o.bytes();
     }
+    bool can_pad() const { return iface == I_XOF || iface == I_XOFA; }
+    void pad() { if (iface == I_XOF) ascon_xof_pad(&s->x); else if (iface == I_XOFA) ascon_xofa_pad(&s->xa); }
     bool can_copy() const { return iface <= I_XOFA; }
     void copy_from(const XofLike &o) {
         switch (iface) {
@@ -143,6 +152,15 @@ static std::string check_xoflike(const KV &c, int iface) {
     std::vector<uint64_t> in_chunks = tolist(c, "in_chunks"), out_chunks = tolist(c, "out_chunks"), junk_chunks = tolist(c, "junk_chunks");
     if (iface <= I_HASHA) { out_chunks.clear(); out_chunks.push_back(32); }
     bool absorbs = iface != I_KDF && iface != I_KDFA;
+    int xmode = (int)tonum(c, "xmode");
+    // ascon_xof(a)_pad before chunk #pad_at is documented as absorbing zeroes up to the next multiple of the rate
+    size_t pad_at = (iface == I_XOF || iface == I_XOFA) ? tonum(c, "pad_at", 99) : 99, pad_pos = (size_t)-1;
+    {
+        size_t p = 0, i = 0;
+        for (uint64_t ch : in_chunks) { if (i == pad_at) pad_pos = p; p += ch; ++i; }
+    }
+    Bytes data_padded = data;
+    if (pad_pos != (size_t)-1) data_padded.insert(data_padded.begin() + pad_pos, (8 - pad_pos % 8) % 8, 0);
     // oracle: one-shot library call where it exists, otherwise single absorb + single squeeze on a fresh object
     Bytes want;
     {
@@ -161,15 +179,18 @@ static std::string check_xoflike(const KV &c, int iface) {
         if (direct) want = o.bytes();
         else {
             XofLike f(iface);
+            f.xmode = xmode;
             f.init(false, key, custom, declared);
-            if (absorbs) f.absorb(data);
+            if (absorbs) f.absorb(data_padded);
             want = f.squeeze(outlen);
             f.free_();
         }
     }
     XofLike a(iface), b(iface);
     bool have_copy = false;
-    a.init(false, key, custom, declared);
+    a.xmode = b.xmode = xmode;
+    if (tonum(c, "reinit")) { a.xmode = !xmode; a.init(false, key, junk, declared ? declared + 1 : 32); a.xmode = xmode; }   // the junk history starts in a different variant
+    else a.init(false, key, custom, declared);
     if (tonum(c, "reinit")) {
         // arbitrary prior history on the same object, then re-initialise
         size_t pos = 0;
@@ -182,6 +203,7 @@ static std::string check_xoflike(const KV &c, int iface) {
     if (absorbs) {
         for (uint64_t ch : in_chunks) {
             if (a.can_copy() && idx == copy_at && !have_copy) { b.copy_from(a); have_copy = true; }
+            if (idx == pad_at) { a.pad(); if (have_copy) b.pad(); }
             Bytes piece = slice(data, pos, ch);
             a.absorb(piece);
             if (have_copy) b.absorb(piece);
